@@ -336,6 +336,48 @@ def check_hashclient(res, tier, rng):
         if diff:
             res.violation("spelling-dependent-placement:ipv6", "%s: %r placed on %r, tuples place it on %r"
                           % (sp, diff[0], r[diff[0]], v6_results[0][diff[0]]), ("hc6-spelling", sp, diff[0]))
+    # public remove_server(): when it raises (upstream raises KeyError for a server without a failure record) the rotation
+    # is what it was; when it returns, only that server's keys move
+    for target in (("h2", 11211), "h2:11211"):
+        net = FakeNet()
+        servers = {}
+        for host, port in (("h1", 11211), ("h2", 11211), ("h3", 11212)):
+            servers["%s:%d" % (host, port)] = net.add_server(host, port)
+        hc = hashmod.HashClient([("h1", 11211), ("h2", 11211), ("h3", 11212)], socket_module=net, allow_unicode_keys=True)
+
+        def placement():
+            out = {}
+            for k in keys[:150]:
+                before = {n_: len(s_.cmdlog) for n_, s_ in servers.items()}
+                try:
+                    hc.get(k)
+                except Exception as e:
+                    out[k] = ["raises %s" % type(e).__name__]
+                    continue
+                out[k] = [n_ for n_, s_ in servers.items() if len(s_.cmdlog) > before[n_]]
+            return out
+        p0 = placement()
+        try:
+            if isinstance(target, tuple):
+                hc.remove_server(*target)
+            else:
+                hc.remove_server(target)
+            raised = None
+        except Exception as e:
+            raised = e
+        p1 = placement()
+        res.count("contacts_vs_rule", 300)
+        moved = [k for k in p0 if p1[k] != p0[k]]
+        if raised is not None and moved:
+            res.violation("failed-remove_server-changed-placement",
+                          "remove_server(%r) raised %r, yet %d of 150 keys moved (e.g. %r: %r -> %r)"
+                          % (target, raised, len(moved), moved[0], p0[moved[0]], p1[moved[0]]), ("hc-remove", repr(target)))
+        if raised is None:
+            wrong = [k for k in moved if p0[k] != ["h2:11211"]]
+            if wrong:
+                res.violation("remove_server-moves-unrelated-key", "remove_server(%r) moved key %r from %r to %r"
+                              % (target, wrong[0], p0[wrong[0]], p1[wrong[0]]), ("hc-remove", repr(target)))
+        res.case(("hc-remove", repr(target), raised is None))
     # add_server(host, port) and unix spellings
     net = FakeNet()
     net.add_server("h1", 11211)
